@@ -31,7 +31,7 @@ Fixpoint osect (o : oid) (tr : list event) : option (tid * nat * call * list cid
 (* what the program counter of the lock holder says about the section *)
 Definition ws_pc (q : pc) (o : oid) (cl : call) (subs0 cls cur : list cid) : Prop :=
   match q with
-  | PSubU _ c => (cl = CSub o \/ exists size, cl = CSubBuf o size) /\ cur = subs0 ++ [c] /\ cls = []
+  | PSubU _ c => (cl = CSub o \/ exists size, cl = CSubBuf o size) /\ cur = subs0 ++ [c] /\ cls = [] /\ ~ In c subs0
   | PUnsubClose _ idx =>
       exists ci, cl = CUnsub o (Some ci) /\ cur = subs0 /\ nth_error subs0 idx = Some ci /\ cls = []
   | PUnsubU _ r =>
@@ -125,7 +125,8 @@ Proof.
               | exists xth; split; [rewrite nth_error_upd_neq by congruence; exact Hxt|exact Hxh] ] ]).
   - (* SubStart (a) *)
     exists (call_of l), (o_subs ob), []. split; [cbn [osect]; rewrite Nat.eqb_refl; reflexivity|].
-    cbn [ws_pc]. split; [destruct H0 as [[-> _]| ->]; cbn; eauto|auto].
+    cbn [ws_pc]. split; [destruct H0 as [[-> _]| ->]; cbn; eauto|]. repeat split; auto.
+    intro F. specialize (W1 _ _ _ H1 F). lia.
   - (* SubStart (b) *)
     injection Hx as <- <- <- <- <-. eexists; split; [apply nth_error_upd_eq; exact Lt|cbn; reflexivity].
   - (* UnsubStart (a), not subscribed *)
@@ -206,7 +207,7 @@ Definition unlock_spec (o : oid) (cl : call) (subs0 closes : list cid) (r : ret)
       ((In ci subs0 /\ r = RNil /\ subs1 = remove Nat.eq_dec ci subs0 /\ closes = [ci]) \/
        (~ In ci subs0 /\ r = RErr ErrAlreadyUnsubscribed /\ subs1 = subs0 /\ closes = []))
   | CUnsubAll o' => o' = o /\ r = RNil /\ subs1 = [] /\ closes = subs0
-  | CSub o' | CSubBuf o' _ => o' = o /\ exists c, r = RChan c /\ subs1 = subs0 ++ [c] /\ closes = []
+  | CSub o' | CSubBuf o' _ => o' = o /\ exists c, r = RChan c /\ subs1 = subs0 ++ [c] /\ closes = [] /\ ~ In c subs0
   | _ => False
   end.
 
@@ -243,7 +244,7 @@ Proof.
   - (* SubU *)
     apply unlock_ok_cons_unlock; auto.
     destruct (WA t th o ob Ht H0 ltac:(rewrite H; reflexivity)) as (cl & subs0 & cls & Hos & Hws).
-    rewrite H in Hws. cbn [ws_pc] in Hws. destruct Hws as (Hcl & Hcur & ->).
+    rewrite H in Hws. cbn [ws_pc] in Hws. destruct Hws as (Hcl & Hcur & -> & Hfresh).
     exists cl, subs0, []. split; [exact Hos|]. cbn [rev].
     destruct Hcl as [->|[size ->]]; cbn [unlock_spec]; (split; [reflexivity|]); exists ci; auto.
   - (* UnsubU *)
@@ -990,4 +991,97 @@ Proof.
   destruct (H (Thread [CPubOne Sync 1 1%Z] (PUnsubClose 0 0) [RChan 0; RView 1]) 0 0) as [_ H2];
     [vm_compute; reflexivity|vm_compute; reflexivity|].
   apply (H2 1 (PsObj [0] [] None None 0%Z false 0%Z)); [discriminate|vm_compute; reflexivity|left; reflexivity].
+Qed.
+
+(* ------------------------------------------------------------------ *)
+(* A view carries its parent's timeout configuration, in every schedule *)
+(* ------------------------------------------------------------------ *)
+Definition vcfg_inv (c : config) : Prop :=
+  (forall t th o clone, nth_error (c_threads c) t = Some th -> th_pc th = PWithOnlyU o clone ->
+     ocfg c o = Some (o_timeout clone, o_cb clone)) /\
+  (forall t n o v vsubs subs1, In (EViewRet t n o v vsubs subs1) (c_trace c) ->
+     ocfg c v = ocfg c o /\ ocfg c o <> None).
+
+Lemma vcfg_inv_step c t th c' :
+  c_panic c = None -> nth_error (c_threads c) t = Some th -> trans c t th c' -> vcfg_inv c -> vcfg_inv c'.
+Proof.
+  intros Hp Ht T (V1 & V2).
+  pose proof (fun o x => ocfg_step c t th c' o x T) as OS.
+  assert (V1' : forall t th o clone, nth_error (c_threads c) t = Some th -> th_pc th = PWithOnlyU o clone ->
+     ocfg c' o = Some (o_timeout clone, o_cb clone)) by (intros; eapply OS; eauto).
+  assert (V2' : forall t n o v vsubs subs1, In (EViewRet t n o v vsubs subs1) (c_trace c) ->
+     ocfg c' v = ocfg c' o /\ ocfg c' o <> None).
+  { intros t0 n o v a b Hi. destruct (V2 _ _ _ _ _ _ Hi) as [E N].
+    destruct (ocfg c o) as [x|] eqn:Eo; [|congruence]. rewrite (OS o x Eo), (OS v x E). split; congruence. }
+  clear V1 V2. unfold vcfg_inv. remember (ocfg c') as oc eqn:Eoc.
+  assert (OC : forall o ob, nth_error (c_objs c) o = Some ob -> oc o = Some (o_timeout ob, o_cb ob)).
+  { intros o ob Ho. apply OS. unfold ocfg. rewrite Ho. reflexivity. }
+  assert (Lt : t < length (c_threads c)) by (eapply nth_error_some_lt; eauto).
+  destruct T; try match goal with S : send_trans _ _ _ _ _ _ _ _ _ _ |- _ => inv_send S end; norm; split.
+  all: try (intros xt xth xo xcl Hxt Hxh; lookup Hxt; try (solve [eauto]);
+            cbn [th_pc] in Hxh; unfold pub_pc, after_send in Hxh;
+            try (match type of Hxh with context [match ?w with _ => _ end] => destruct w end);
+            try (match type of Hxh with context [if ?b then _ else _] => destruct b end);
+            try discriminate;
+            try (match goal with Hr : recv_target _ = Some _ |- _ =>
+                   first [ destruct (proj1 (withonly_pc_recv _ _ _ _ _ Hr) Hxh) | destruct (proj2 (withonly_pc_recv _ _ 0%Z _ _ Hr) Hxh) ] end); fail).
+  all: try (intros xt xn xo xv xa xb Hxi; cbn [In] in Hxi; repeat (destruct Hxi as [Hxi|Hxi]; [discriminate|]); eauto; fail).
+  - (* WithOnlyStart *)
+    intros xt xth xo xcl Hxt Hxh; lookup Hxt; [|eauto]. cbn [th_pc] in Hxh. injection Hxh as <- <-. cbn. eauto.
+  - (* WithOnlyU *)
+    intros xt xn xo xv xa xb [E|Hxi]; [|eauto]. injection E as <- <- <- <- <- <-.
+    assert (Hv : oc (length (c_objs c)) = Some (o_timeout clone, o_cb clone)).
+    { rewrite Eoc. unfold ocfg. norm. rewrite nth_error_app2 by (rewrite upd_length; lia).
+      rewrite upd_length, Nat.sub_diag. reflexivity. }
+    rewrite Hv, (V1' _ _ _ _ Ht H). split; [reflexivity|discriminate].
+Qed.
+
+Lemma vcfg_inv_run timeout cb defbuf progs s : vcfg_inv (run (init timeout cb defbuf progs) s).
+Proof.
+  apply run_lift; [exact vcfg_inv_step|]. split.
+  - intros t th o cl Ht E. apply init_threads_pc in Ht as [E' _]. congruence.
+  - intros ? ? ? ? ? ? [].
+Qed.
+
+(* the view returned by a WithOnly call has, from then on, the PubTimeoutAfter and the
+   OnPubTimeout setting of its parent *)
+Lemma view_config timeout cb defbuf progs s t n o v vsubs subs1 :
+  let c := run (init timeout cb defbuf progs) s in
+  In (EViewRet t n o v vsubs subs1) (c_trace c) -> ocfg c v = ocfg c o /\ ocfg c o <> None.
+Proof. intros c H. destruct (vcfg_inv_run timeout cb defbuf progs s) as [_ V2]. eauto. Qed.
+
+(* ------------------------------------------------------------------ *)
+(* The mirrored stale-view histories (known findings 4 and 5)           *)
+(* ------------------------------------------------------------------ *)
+(* s := SubBuf(1); v := WithOnly(s); Unsub(s) THROUGH v; then on the parent, which still lists s:
+   PubSync(1) sends on the closed channel, Unsub(s) closes it again *)
+Definition view_first_pub_progs : list (list call) :=
+  [[CSubBuf 0 1%Z; CWithOnly 0 (Some 0); CUnsub 1 (Some 0); CPubOne Sync 0 1%Z]].
+Definition view_first_unsub_progs : list (list call) :=
+  [[CSubBuf 0 1%Z; CWithOnly 0 (Some 0); CUnsub 1 (Some 0); CUnsub 0 (Some 0)]].
+Lemma view_first_pub_panic_reachable :
+  c_panic (run (init 0%Z false 0%Z view_first_pub_progs) (repeat (0, Plain) 9)) = Some PSendOnClosed.
+Proof. vm_compute. reflexivity. Qed.
+Lemma view_first_unsub_panic_reachable :
+  c_panic (run (init 0%Z false 0%Z view_first_unsub_progs) (repeat (0, Plain) 9)) = Some PCloseOfClosed.
+Proof. vm_compute. reflexivity. Qed.
+
+(* excluded by hypothesis (b): when the view's Unsub closes the channel (6th step), the parent lists it *)
+Lemma view_first_pub_not_safe :
+  ~ safe_sched (init 0%Z false 0%Z view_first_pub_progs) (repeat (0, Plain) 9).
+Proof.
+  intro H. specialize (H (repeat (0, Plain) 5) (0, Plain) (repeat (0, Plain) 3) eq_refl).
+  unfold safe_close in H. cbn [fst] in H.
+  destruct (H (Thread [CPubOne Sync 0 1%Z] (PUnsubClose 1 0) [RChan 0; RView 1]) 1 0) as [_ H2];
+    [vm_compute; reflexivity|vm_compute; reflexivity|].
+  apply (H2 0 (PsObj [0] [] None None 0%Z false 0%Z)); [discriminate|vm_compute; reflexivity|left; reflexivity].
+Qed.
+Lemma view_first_unsub_not_safe :
+  ~ safe_sched (init 0%Z false 0%Z view_first_unsub_progs) (repeat (0, Plain) 9).
+Proof.
+  intro H. specialize (H (repeat (0, Plain) 5) (0, Plain) (repeat (0, Plain) 3) eq_refl).
+  unfold safe_close in H. cbn [fst] in H.
+  destruct (H (Thread [CUnsub 0 (Some 0)] (PUnsubClose 1 0) [RChan 0; RView 1]) 1 0) as [_ H2];
+    [vm_compute; reflexivity|vm_compute; reflexivity|].
+  apply (H2 0 (PsObj [0] [] None None 0%Z false 0%Z)); [discriminate|vm_compute; reflexivity|left; reflexivity].
 Qed.
